@@ -57,12 +57,18 @@ fn con_sets() -> Vec<Vec<ConRep>> {
     ]
 }
 
+/// `set >= 100`: constraint set `set - 100` in an instance whose variable 7 carries a fixed
+/// (substituted) value although constraints still mention it
 fn initial(set: usize, init_removed: &[u64]) -> InstRep {
-    let cons = &con_sets()[set];
+    let cons = &con_sets()[set % 100];
+    let mut v7 = VarRep::new(7, KIND_CONTINUOUS, None);
+    if set >= 100 {
+        v7.substituted = Some(2.0);
+    }
     InstRep {
         sense: SENSE_MIN,
         objective: Some(FnRep::Lin { terms: vec![(1, 1.0)], c: 0.0 }),
-        vars: vec![VarRep::new(1, KIND_CONTINUOUS, None), VarRep::new(2, KIND_CONTINUOUS, None), VarRep::new(7, KIND_CONTINUOUS, None)],
+        vars: vec![VarRep::new(1, KIND_CONTINUOUS, None), VarRep::new(2, KIND_CONTINUOUS, None), v7],
         constraints: cons.iter().filter(|c| !init_removed.contains(&c.id)).cloned().collect(),
         removed: cons
             .iter()
@@ -450,6 +456,12 @@ pub fn run(ctx: &Ctx) -> Finish {
             models.push((si, ids.clone(), ids[..k].to_vec()));
         }
     }
+    // the first set again with variable 7 fixed in the instance while constraint 40 mentions it
+    {
+        let ids: Vec<u64> = sets[0].iter().map(|c| c.id).collect();
+        models.push((100, ids.clone(), vec![]));
+        models.push((100, ids.clone(), vec![40]));
+    }
     let mut depth_max = 0usize;
     let mut unique_total = 0usize;
     for (si, ids, init_removed) in models {
@@ -492,7 +504,7 @@ pub fn run(ctx: &Ctx) -> Finish {
     });
     Finish {
         level: "model_checking",
-        rule: "explicit-state breadth-first search (stateright) from each initial instance over the actions relax(id, reason in {a, empty string}, params in {none,{k:v}}), relax(id, a reason with leading and trailing whitespace) and restore(id) for every constraint id and the unknown id 99; the instance message IS the state (dedup key = its bytes + reference model), so all histories of any length are covered; every transition is compared with a two-set reference model and every reachable state is checked: active+removed multiset of (id, function, equality, metadata) unchanged, ids partitioned, recorded reasons, and on all 27 grid states per-constraint values and feasible equal the initial instance's while feasible_relaxed follows the currently active constraints; three incomplete states (each variable omitted) are accepted or rejected exactly as by the initial instance".into(),
+        rule: "explicit-state breadth-first search (stateright) from each initial instance (incl. two in which a variable that a constraint mentions carries a fixed value) over the actions relax(id, reason in {a, empty string}, params in {none,{k:v}}), relax(id, a reason with leading and trailing whitespace) and restore(id) for every constraint id and the unknown id 99; the instance message IS the state (dedup key = its bytes + reference model), so all histories of any length are covered; every transition is compared with a two-set reference model and every reachable state is checked: active+removed multiset of (id, function, equality, metadata) unchanged, ids partitioned, recorded reasons, and on all 27 grid states per-constraint values and feasible equal the initial instance's while feasible_relaxed follows the currently active constraints; three incomplete states (each variable omitted) are accepted or rejected exactly as by the initial instance".into(),
         bounds: json!({"constraint_sets": sets.len(), "constraints_per_instance": if ctx.tier == Tier::Thorough { "3, 4 or 5" } else { "3 or 4" }, "initial_instances": "0,1,2,all initially removed", "actions_per_state": "6 per id incl. unknown id", "histories": "all lengths (full reachable state space)"}),
         exhaustive: true,
     }
